@@ -60,7 +60,7 @@ func otherChainID(t *rapid.T, c *big.Int, label string) *big.Int {
 		new(big.Int).Add(c, big1),
 		new(big.Int).Add(c, new(big.Int).Lsh(big1, 64)),  // equal modulo 2^64
 		new(big.Int).Add(c, new(big.Int).Lsh(big1, 256)), // equal modulo 2^256
-		new(big.Int).Lsh(c, 8),                          // same bytes followed by a zero byte
+		new(big.Int).Lsh(c, 8),                           // same bytes followed by a zero byte
 		new(big.Int).Mul(c, big.NewInt(2)),
 	}
 	if c.Cmp(big1) > 0 {
